@@ -3645,7 +3645,7 @@ func restartSubtree(ctx context.Context, node *restartNode, parent *PID, tree *t
 		return fmt.Errorf("actor=(%s) failed to restart: %w", pid.Name(), err)
 	}
 
-	pid.schedState.reset()
+	pid.schedState.releaseStale()
 	pid.setState(suspendedState, false)
 	pid.startPassivation()
 
